@@ -631,6 +631,7 @@ fn hostile_one(c: &mut Ctx, fam: &str, idx: u64, text: &[u8], kind: &str) {
 }
 
 pub fn run(c: &mut Ctx) {
+    c.families(2);
     if let Some(r) = c.replay.clone() {
         if let Some(h) = r.get("extra").and_then(|e| e.get("input_hex")).and_then(|h| h.as_str()) {
             let t = unhex(h);
@@ -640,7 +641,7 @@ pub fn run(c: &mut Ctx) {
     }
     let miri = c.mode == "miri";
     let fam = "meta";
-    let total = c.total(100_000, 2_000_000);
+    let total = c.total(100_000, 8_000_000);
     for idx in c.cases(fam, total) {
         if c.out_of_time() {
             break;
@@ -649,7 +650,7 @@ pub fn run(c: &mut Ctx) {
         metamorphic(c, fam, idx, &mut rng);
     }
     let fam = "hostile";
-    let total = c.total(600_000, 12_000_000);
+    let total = c.total(600_000, 40_000_000);
     for idx in c.cases(fam, total) {
         if c.out_of_time() {
             break;
